@@ -3,6 +3,7 @@ package main
 import (
 	"errors"
 	"fmt"
+	"strings"
 
 	"go.lstv.dev/util/date"
 
@@ -260,6 +261,37 @@ func runC09(c *rt.Ctx) {
 	})
 	date.MaxInputLength = 10
 	c.Require("year-aliasing-history", 100)
+
+	// call histories: different valid texts of equal length that collide under weak checksums, parsed back to back
+	{
+		var texts []string
+		for o := ref.Ordinal(1000, 1, 1); o <= ref.Ordinal(4299, 12, 31); o++ {
+			y, m, d := ref.Civil(o)
+			texts = append(texts, ref.DateText(y, m, d, false))
+		}
+		cols := collisionPairs(texts, 400)
+		c.Extra("checksum_collision_pairs", len(cols))
+		c.Parallel("checksum-collisions", 0, func(w *rt.W) {
+			for i := w.Shard; i < len(cols); i += w.NShards {
+				a, b := cols[i].a, cols[i].b
+				for _, seq := range [][]string{{a, b, a}, {b, a, b}, {a, a, b, b}} {
+					for _, t := range seq {
+						if c09Case(w, t, 0, true) != c09Accepted {
+							c.Inconclusive("collision universe contains a text the oracle does not accept: " + t)
+						}
+					}
+				}
+				ab, bb := strings.ReplaceAll(a, "-", ""), strings.ReplaceAll(b, "-", "")
+				c09Case(w, ab, 0, true)
+				c09Case(w, bb, 0, true)
+				w.ClassN("checksum-collision-pair:"+cols[i].hash, 1)
+				w.ClassN("checksum-collision-pairs", 1)
+			}
+		})
+		c.Require("checksum-collision-pairs", 200)
+		c.Require("checksum-collision-pair:fnv1a-32", 5)
+		c.Require("checksum-collision-pair:crc32-ieee", 5)
+	}
 
 	// (b) exhaustive small-alphabet strings under the default configuration
 	const alphabet = "01239-"
